@@ -34,8 +34,17 @@ class SimRib:
     def elig(d):
         return [e for e in d['entries'] if not e['filt'] and not e['nhinv']]
 
-    def paths(self, d):
-        return [(e['pid'], e['src'], e['tok']) for e in self.elig(d)]
+    def paths(self, d, marked=None):
+        """ranked candidates (pid, src, tok, mark); mark = the LLGR-stale flag of the source as
+        the consumers have been told so far (ghost of the model): the live flag, except inside
+        a restale_llgr batch, where the paths of the peer are marked one change at a time"""
+        out = []
+        for e in self.elig(d):
+            m = e['src'] in self.llgr
+            if marked is not None and e['src'] == marked[0]:
+                m = e['pid'] in marked[1]
+            out.append((e['pid'], e['src'], e['tok'], int(m)))
+        return out
 
     def best(self, d):
         l = self.elig(d)
@@ -116,9 +125,12 @@ class SimRib:
         return labels
 
     def restale_llgr(self, src):
-        labels = []
         has = any(e['src'] == src for d in self.dests.values() for e in d['entries'])
-        labels.append(('llgr', src, has or src in self.llgr))
+        if not has:
+            # nothing of the peer in the table: the flag is not touched, no change
+            return [('llgr', src, False)] if src not in self.llgr else [('llgrmark', src, [])]
+        already = src in self.llgr
+        sets = []
         for net in sorted(self.dests):
             d = self.dests[net]
             if not any(e['src'] == src for e in d['entries']):
@@ -130,10 +142,17 @@ class SimRib:
             d['entries'].sort(key=self.key)
             nb = self.best(d)
             nb = None if nb is None else nb['pid']
-            if ob != nb or any_unf:
-                labels.append(('set', net, ob != nb, any_unf, None, self.paths(d)))
-        return labels
-
+            marked = [e['pid'] for e in self.elig(d) if e['src'] == src]
+            best_marked = nb is not None and bool(marked) and marked[0] == nb
+            bc = ob != nb or best_marked
+            if bc or any_unf:
+                if not marked:
+                    sets.append((net, bc, any_unf, None, self.paths(d)))
+                else:
+                    for k, pid in enumerate(marked):
+                        done = set(marked[:k + 1]) if not already else set(marked)
+                        sets.append((net, bc and k == 0, True, pid, self.paths(d, (src, done))))
+        return [('llgrmark', src, sets)]
 
 def hidden_sources(cfg):
     """sources whose paths the neighbour never sees: its own address (echo), iBGP split
@@ -174,7 +193,13 @@ def refresh_race(c):
     chan = []           # queued (net, id)
     reg = False
     for ls in translate(c):
+        flat = []
         for l in ls:
+            if l[0] == 'llgrmark':
+                flat += [('set',) + tuple(x) for x in l[2]]
+            else:
+                flat.append(l)
+        for l in flat:
             t = l[0]
             if t in ('set', 'touch'):
                 if l[1] not in ids:
@@ -198,11 +223,17 @@ def refresh_race(c):
     return False
 
 
+def paths_coq(ps):
+    return clist(['{| p_pid := %s; p_src := %s; p_tok := %s; p_mark := %s |}' % (cN(a), cN(b), cN(d), cbool(m))
+                  for a, b, d, m in ps])
+
 def label_coq(l):
     t = l[0]
     if t == 'set':
-        paths = clist(['{| p_pid := %s; p_src := %s; p_tok := %s |}' % (cN(a), cN(b), cN(d)) for a, b, d in l[5]])
-        return '(RibSet %s %s %s %s %s)' % (cN(l[1]), cbool(l[2]), cbool(l[3]), copt(None if l[4] is None else cN(l[4])), paths)
+        return '(RibSet %s %s %s %s %s)' % (cN(l[1]), cbool(l[2]), cbool(l[3]), copt(None if l[4] is None else cN(l[4])), paths_coq(l[5]))
+    if t == 'llgrmark':
+        return '(LlgrMark %s %s)' % (cN(l[1]), clist(['(%s, %s, %s, %s, %s)' % (
+            cN(x[0]), cbool(x[1]), cbool(x[2]), copt(None if x[3] is None else cN(x[3])), paths_coq(x[4])) for x in l[2]]))
     if t == 'touch': return '(RibTouch %s)' % cN(l[1])
     if t == 'free': return '(RibFree %s %s)' % (cN(l[1]), cbool(l[2]))
     if t == 'llgr': return '(LlgrFlip %s %s)' % (cN(l[1]), cbool(l[2]))
@@ -224,7 +255,7 @@ class Prop:
                          'no_lost_withdrawal_outside_known', 'fresh_is_export_rules',
                          'no_lost_withdrawal_refuted_by_id_keying',
                          'quiescent_view_eq_fresh_refuted_truncated_dump',
-                         'quiescent_view_eq_fresh_refuted_llgr',
+                         'quiescent_view_eq_fresh_refuted_unreported_llgr',
                          'no_lost_withdrawal_refuted_refresh_race']
     correspondence_name = ('Model/ExportTx.v step vs table::Table + event::export::process_nlri_change + '
                            'peer_tx::PendingTx (harness/daemon/export_c01_hx.rs)')
@@ -248,7 +279,7 @@ class Prop:
         'addpath_tx = (effective_max > 1) is assumed (the FSM/codec agreement is property C16); the model and the '
         'correspondence cover the mismatch configuration, the theorems do not']
     assumptions = ['truthful change stream (Spec/ExportTxSpec.v truthful_run)',
-                   'no LLGR-stale marking of a source (open finding C01-llgr-stale-not-resent)',
+                   'LLGR_STALE marking does not decide acceptance by the export policy (pol_marks_after_accept)',
                    'route refresh processed with an empty event channel (open finding C01-refresh-race)']
 
     # ---- rendering
